@@ -166,7 +166,7 @@ Lemma read_code_ok T g p cm attr ms ml code nexc exc attrs :
   tok T ->
   negb (elen code =? 0) = true -> negb (65535 <? elen code) = true -> elen exc = 8 * nexc ->
   wf_pattrs_b p (rt_code T) attrs = true -> Forall (g_resp_plain g p (rt_code T)) attrs ->
-  forall rest, read_code g p T cm attr (code_body ms ml code nexc exc attrs ++ rest) = Ok (spec_code p T cm attr ms ml attrs, rest).
+  forall rest, read_code g p T cm attr (code_body ms ml code nexc exc attrs ++ rest) = Ok (spec_code p T cm attr ms ml (exc_rows nexc exc) attrs, rest).
 Proof.
   intros HT H0 H1 Hexc Hwf Hg.
   pose proof (read_pattrs_ok (rt_code T) [] g p cm no_nested attrs (tk_code T HT) Hwf Hg) as Hr.
@@ -176,7 +176,7 @@ Proof.
   rewrite rd16_e16. cbv beta iota. rewrite rd16_e16. cbv beta iota. rewrite rd32_e32. cbv beta iota.
   rewrite H0, H1. cbn [orb].
   rewrite skipN_app. rewrite rd16_e16. cbv beta iota.
-  rewrite (skipN_app_eq exc _ (8 * nexc)) by (symmetry; exact Hexc).
+  rewrite (takeN_app_eq exc _ (8 * nexc)) by (symmetry; exact Hexc).
   rewrite Hr. reflexivity.
 Qed.
 
